@@ -255,6 +255,9 @@ func runC19(c *Ctx) {
 	}
 
 	// (5) parsers
+	if q := p.Pkg("private/bufpkg/bufconnect"); q != nil {
+		c19SplitAsIs(c, q)
+	}
 	for _, name := range []string{"newTokenProviderFromString", "newSingleTokenProvider", "newMultipleTokenProvider"} {
 		fr := p.Func("private/bufpkg/bufconnect", name)
 		if fr == nil {
